@@ -26,12 +26,14 @@ Order == IF "ORDER" \in DOMAIN IOEnv THEN IOEnv.ORDER ELSE "0"
 Keys == 0..4
 
 VARIABLES lst, flt, nn, nf, pending, frames, done, pins, l,
+          armed,     \* a fault (allocation failure / throwing copy) is armed for the operation that follows (C09)
           kind,      \* node -> [k, left]: "plain", "ctr" (CounterRemover, triggers left), "cond" (ConditionalRemover)   (C16)
           rem        \* ScopedRemover -> [alive, tgt, resp]: target dispatcher (1: keys 1,2; 2: keys 3,4), listeners it answers for  (C15)
-vars == <<lst, flt, nn, nf, pending, frames, done, pins, l, kind, rem>>
+vars == <<lst, flt, nn, nf, pending, frames, done, pins, l, kind, rem, armed>>
 Rs == 1..3
 NoRem == [alive |-> FALSE, tgt |-> 1, resp |-> {}]
-UR == UNCHANGED <<kind, rem>>
+UR == UNCHANGED <<kind, rem, armed>>
+UA == UNCHANGED armed
 
 InSeq(s, x) == \E i \in 1..Len(s) : s[i] = x
 Pos(s, x) == CHOOSE i \in 1..Len(s) : s[i] = x
@@ -39,6 +41,7 @@ Without(s, x) == SelectSeq(s, LAMBDA y : y # x)
 
 Init == /\ lst = [e \in Keys |-> <<>>] /\ flt = <<>> /\ nn = 0 /\ nf = 0 /\ pending = <<>>
         /\ frames = <<>> /\ done = {} /\ pins = 0 /\ l = 1
+        /\ armed = FALSE
         /\ kind = <<>> /\ rem = [r \in Rs |-> IF r = 1 THEN [alive |-> TRUE, tgt |-> 1, resp |-> {}] ELSE NoRem]
 
 Ev == TraceLog[l]
@@ -65,7 +68,8 @@ PutBack(kept, s) == IF Order = "0" THEN kept \o s ELSE MergeFront(kept, s)
 \* ---- frames
 LiveL(e, s) == SelectSeq(s, LAMBDA x : InSeq(lst[e], x))
 LiveF(s) == SelectSeq(s, LAMBDA x : InSeq(flt, x))
-NewD(e, uid, v, explicit, alias) == [k |-> "D", e |-> e, uid |-> uid, v |-> v, v0 |-> v, ph |-> "f", ftodo |-> flt, todo |-> <<>>, cur |-> 0,
+\* (the filters belong to dispatcher 1, keys 1 and 2; dispatcher 2 of the remover histories has none)
+NewD(e, uid, v, explicit, alias) == [k |-> "D", e |-> e, uid |-> uid, v |-> v, v0 |-> v, ph |-> "f", ftodo |-> IF e \in {1, 2} THEN flt ELSE <<>>, todo |-> <<>>, cur |-> 0,
                                      explicit |-> explicit, alias |-> alias]
 NewP(mode, batch) == [k |-> "P", mode |-> mode, batch |-> batch, kept |-> <<>>, cnt |-> 0, inpred |-> 0, stopped |-> FALSE]
 \* a dispatch whose filters are through takes the snapshot of its listeners
@@ -195,6 +199,51 @@ EvCondEnd == /\ Is("ke") /\ frames # <<>> /\ Top(frames).k = "D" /\ Top(frames).
              /\ IF Ev.r = 1 THEN lst' = Strip(lst, {Ev.a}) /\ pins' = pins + 1 ELSE UNCHANGED <<lst, pins>>
              /\ UNCHANGED <<flt, nn, nf, pending, done, kind, rem>>
 
+\* ---- exceptions (C09)
+\* user code throws: the dispatch it belongs to is over (no further filter or listener of it runs)
+EvThrowUser == /\ Is("xt") /\ frames # <<>>
+               /\ IF Top(frames).k = "D" THEN Top(frames).cur = Ev.a /\ Ev.a # 0 /\ frames' = [frames EXCEPT ![Len(frames)] = [@ EXCEPT !.cur = 0, !.ph = "t"]]
+                  ELSE Top(frames).inpred # 0 /\ frames' = [frames EXCEPT ![Len(frames)] = [@ EXCEPT !.inpred = 0, !.stopped = TRUE, !.mode = 5]]
+               /\ UNCHANGED <<lst, flt, nn, nf, pending, done, pins, kind, rem, armed>>
+\* the exception reached the caller of an explicit dispatch: thrown by user code, or (armed) by a failing copy / allocation inside
+EvDispatchExit == /\ Is("dx")
+                  /\ LET S == IF armed THEN Settle(frames, done) ELSE [fr |-> frames, dn |-> done] IN
+                     /\ S.fr # <<>> /\ Top(S.fr).k = "D" /\ Top(S.fr).explicit /\ Top(S.fr).uid = Ev.u /\ Top(S.fr).cur = 0
+                     /\ (Top(S.fr).ph = "t" \/ armed)
+                     /\ frames' = SubSeq(S.fr, 1, Len(S.fr) - 1) /\ done' = S.dn
+                     /\ pins' = IF Len(S.fr) = 1 THEN 0 ELSE pins
+                  /\ UNCHANGED <<lst, flt, nn, nf, pending, kind, rem, armed>> /\ LvOk(frames', pins') /\ PvOk(frames')
+\* the exception left a processing call: everything that call had taken out of the queue (and not yet finished) is discarded,
+\* nothing is put back, nothing else changes; emptiness reporting is that of the remaining state
+HeldBy(p) == {p.batch[i].uid : i \in 1..Len(p.batch)} \cup {p.kept[i].uid : i \in 1..Len(p.kept)}
+EvProcessExit == /\ Is("px")
+                 /\ LET S == IF armed THEN Settle(frames, done) ELSE [fr |-> frames, dn |-> done]
+                        n == Len(S.fr) IN
+                    /\ n > 0
+                    /\ LET top == S.fr[n]
+                           viaD == top.k = "D" /\ ~top.explicit /\ top.cur = 0 /\ n > 1 /\ (top.ph = "t" \/ armed)
+                           viaP == top.k = "P" /\ top.inpred = 0 /\ (top.mode = 5 \/ armed)
+                           pi == IF viaD THEN n - 1 ELSE n IN
+                       /\ (viaD \/ viaP) /\ S.fr[pi].k = "P"
+                       /\ frames' = SubSeq(S.fr, 1, pi - 1)
+                       /\ pins' = IF pi = 1 THEN 0 ELSE pins
+                       \* "discards only": what the call still held is discarded - or (when the exception came after the put-back) back in the queue
+                       /\ \/ /\ done' = S.dn \cup HeldBy(S.fr[pi]) \cup (IF viaD THEN {top.uid} ELSE {})
+                             /\ UNCHANGED pending
+                          \/ /\ armed /\ viaP /\ S.fr[pi].kept \o S.fr[pi].batch # <<>>
+                             /\ pending' = PutBack(S.fr[pi].kept \o S.fr[pi].batch, pending) /\ done' = S.dn
+                 /\ UNCHANGED <<lst, flt, nn, nf, kind, rem, armed>> /\ LvOk(frames', pins') /\ PvOk(frames')
+\* fault injection: "fa" arms, "xf" = the armed operation threw and reached the caller having changed nothing
+EvArm == Is("fa") /\ armed' = TRUE /\ UNCHANGED <<lst, flt, nn, nf, pending, frames, done, pins, kind, rem>>
+EvFaulted == /\ Is("xf") /\ armed /\ LET S == Settle(frames, done) IN InCtx(S.fr) /\ frames' = S.fr /\ done' = S.dn
+             /\ UNCHANGED <<lst, flt, nn, nf, pending, pins, kind, rem, armed>> /\ LvOk(frames', pins) /\ PvOk(frames')
+\* a failed takeEvent: the event at the head is either still there or was discarded (the statement promises neither)
+EvTakeFaulted == /\ Is("xk") /\ armed /\ LET S == Settle(frames, done) IN
+                    /\ InCtx(S.fr) /\ frames' = S.fr
+                    /\ \/ UNCHANGED pending /\ done' = S.dn
+                       \/ pending # <<>> /\ pending' = Tail(pending) /\ done' = S.dn \cup {Head(pending).uid}
+                 /\ UNCHANGED <<lst, flt, nn, nf, pins, kind, rem, armed>> /\ PvOk(frames')
+
 \* ---- ScopedRemover (C15)
 TKeys(d) == {2 * d - 1, 2 * d}
 EvSAdd == /\ (Is("sa") \/ Is("sp")) /\ rem[Ev.o].alive /\ Ev.a \in TKeys(rem[Ev.o].tgt)
@@ -315,14 +364,16 @@ EvEmptyQ == /\ Is("eq") /\ LET S == Settle(frames, done) IN
 EvReset == /\ Is("rs") /\ frames = <<>> /\ Ev.lv = 0 /\ Ev.pv = 0
            /\ lst' = [e \in Keys |-> <<>>] /\ flt' = <<>> /\ nn' = 0 /\ nf' = 0 /\ pending' = <<>>
            /\ frames' = <<>> /\ done' = {} /\ pins' = 0
+           /\ armed' = FALSE
            /\ kind' = <<>> /\ rem' = [r \in Rs |-> IF r = 1 THEN [alive |-> TRUE, tgt |-> 1, resp |-> {}] ELSE NoRem]
 
-Next == \/ EvAppendL \/ EvPrependL \/ EvInsertL \/ EvAppendCtr \/ EvAppendCond
+Next == \/ ((EvAppendL \/ EvPrependL \/ EvInsertL \/ EvAppendCtr \/ EvAppendCond) /\ UA)
+        \/ EvThrowUser \/ EvDispatchExit \/ EvProcessExit \/ EvArm \/ EvFaulted \/ EvTakeFaulted
         \/ ((EvRemoveL \/ EvHasAnyL \/ EvOwnsL \/ EvForEachL \/ EvVisitL \/ EvAppendF \/ EvRemoveF
              \/ EvDispatchBegin \/ EvDispatchEnd \/ EvFilterBegin \/ EvFilterEnd \/ EvRet
              \/ EvEnqueue \/ EvProcessBegin \/ EvPredBegin \/ EvPredEnd \/ EvProcessEnd \/ EvPeek \/ EvTake \/ EvClear \/ EvEmptyQ) /\ UR)
-        \/ EvEnter \/ EvCondBegin \/ EvCondEnd
-        \/ EvSAdd \/ EvSRemove \/ EvSReset \/ EvSTarget \/ EvSMoveConstruct \/ EvSMoveAssign \/ EvSSwap \/ EvSDestroy \/ EvSCreate
+        \/ ((EvEnter \/ EvCondBegin \/ EvCondEnd
+             \/ EvSAdd \/ EvSRemove \/ EvSReset \/ EvSTarget \/ EvSMoveConstruct \/ EvSMoveAssign \/ EvSSwap \/ EvSDestroy \/ EvSCreate) /\ UA)
         \/ EvReset
 
 Report == IF TLCGet("stats").diameter - 1 = Len(TraceLog) THEN TRUE
